@@ -86,7 +86,7 @@ theorem BDenotes.flip {nodes : Array SerBdd} {a : Assign} {i : Nat} {v : Nat} {l
     cases hn : nodes[i]? with
     | none =>
       have : i < nodes.size := h.1
-      simp [Array.getElem?_eq_none_iff] at hn; omega
+      simp at hn; omega
     | some n =>
       rw [hn] at h2; simp only [Bool.false_bne] at h2
       simp only [h2]
@@ -160,5 +160,1241 @@ theorem serBdd_eval (d : Bdd.Ptr) (a : Assign) :
 /-- the table is in post order: children have smaller indices -/
 theorem serBdd_wf (d : Bdd.Ptr) : BWf (serBdd d).nodes :=
   (serBddAux_correct (fun _ => false) d ⟨#[], []⟩ (BInv.init _)).1.wf
+
+/-! ## DIMACS: printing then reading -/
+
+open Spec.Text
+
+theorem splitAt_ne_nil (p : Char → Bool) : ∀ l, splitAt p l ≠ []
+  | [] => by simp [splitAt]
+  | c :: cs => by
+    simp only [splitAt]
+    split
+    · simp
+    · split <;> simp
+
+theorem splitAt_none (p : Char → Bool) : ∀ l, (∀ c ∈ l, p c = false) → splitAt p l = [l]
+  | [], _ => rfl
+  | c :: cs, h => by
+    have hc : p c = false := h c List.mem_cons_self
+    have ih := splitAt_none p cs (fun x hx => h x (List.mem_cons_of_mem _ hx))
+    simp [splitAt, hc, ih]
+
+/-- cutting `x ++ [sep] ++ r` gives the pieces of `x` followed by the pieces of `r` -/
+theorem splitAt_append_sep (p : Char → Bool) (c : Char) (hc : p c = true) (r : List Char) :
+    ∀ x, splitAt p (x ++ c :: r) = splitAt p x ++ splitAt p r
+  | [] => by simp [splitAt, hc]
+  | y :: x => by
+    have ih := splitAt_append_sep p c hc r x
+    simp only [List.cons_append, splitAt]
+    split
+    · simp [ih]
+    · rw [ih]
+      cases hx : splitAt p x with
+      | nil => exact absurd hx (splitAt_ne_nil p x)
+      | cons l ls => simp
+
+theorem tokens_append_ws (x r : List Char) (c : Char) (hc : isWs c = true) :
+    tokens (x ++ c :: r) = tokens x ++ tokens r := by
+  simp [tokens, splitAt_append_sep isWs c hc r x]
+
+theorem tokens_single (t : List Char) (hne : t ≠ []) (hw : ∀ c ∈ t, isWs c = false) :
+    tokens t = [t] := by
+  simp [tokens, splitAt_none isWs t hw, hne]
+
+theorem tokens_joinSp : ∀ (ts : List (List Char)),
+    (∀ t ∈ ts, t ≠ [] ∧ ∀ c ∈ t, isWs c = false) → tokens (joinSp ts) = ts
+  | [], _ => by simp [joinSp, tokens, splitAt]
+  | [x], h => by
+    obtain ⟨h1, h2⟩ := h x List.mem_cons_self
+    simpa [joinSp] using tokens_single x h1 h2
+  | x :: y :: r, h => by
+    obtain ⟨h1, h2⟩ := h x List.mem_cons_self
+    have ih := tokens_joinSp (y :: r) (fun t ht => h t (List.mem_cons_of_mem _ ht))
+    simp only [joinSp]
+    rw [tokens_append_ws x _ ' ' (by decide), ih, tokens_single x h1 h2]; rfl
+
+/-! ### characters of a printed literal -/
+
+/-- characters `to_dimacs` prints inside a clause line -/
+def okCh (c : Char) : Bool := c.isDigit || c == '-' || c == ' '
+
+theorem digit_not_ws {c : Char} (h : c.isDigit = true) : isWs c = false := by
+  simp only [isWs, Bool.or_eq_false_iff, beq_eq_false_iff_ne]
+  refine ⟨⟨⟨?_, ?_⟩, ?_⟩, ?_⟩ <;> intro e <;> rw [e] at h <;> exact absurd h (by decide)
+
+theorem okCh_not_nl {c : Char} (h : okCh c = true) : isNl c = false := by
+  simp only [okCh, Bool.or_eq_true, beq_iff_eq] at h
+  simp only [isNl, beq_eq_false_iff_ne]
+  intro e; rw [e] at h; revert h; decide
+
+theorem okCh_not_cp {c : Char} (h : okCh c = true) : (c == 'c' || c == 'p') = false := by
+  simp only [okCh, Bool.or_eq_true, beq_iff_eq] at h
+  simp only [Bool.or_eq_false_iff, beq_eq_false_iff_ne]
+  constructor <;> intro e <;> rw [e] at h <;> revert h <;> decide
+
+theorem showLit_digits_or_minus (l : Lit) : ∀ c ∈ showLit l, c.isDigit = true ∨ c = '-' := by
+  intro c hc
+  simp only [showLit, List.mem_append] at hc
+  rcases hc with hc | hc
+  · split at hc <;> simp at hc; exact Or.inr hc
+  · exact Or.inl (Nat.isDigit_of_mem_toDigits (by decide) (by decide) hc)
+
+theorem showLit_ne_nil (l : Lit) : showLit l ≠ [] := by
+  simp [showLit, Nat.toDigits_ne_nil]
+
+theorem showLit_not_ws (l : Lit) : ∀ c ∈ showLit l, isWs c = false := by
+  intro c hc
+  rcases showLit_digits_or_minus l c hc with h | h
+  · exact digit_not_ws h
+  · subst h; decide
+
+theorem showLit_ok (l : Lit) : ∀ c ∈ showLit l, okCh c = true := by
+  intro c hc
+  rcases showLit_digits_or_minus l c hc with h | h
+  · simp [okCh, h]
+  · subst h; decide
+
+theorem joinSp_ok : ∀ (ts : List (List Char)), (∀ t ∈ ts, ∀ c ∈ t, okCh c = true) →
+    ∀ c ∈ joinSp ts, okCh c = true
+  | [], _ => by simp [joinSp]
+  | [x], h => by simpa [joinSp] using h x List.mem_cons_self
+  | x :: y :: r, h => by
+    intro c hc
+    simp only [joinSp, List.mem_append, List.mem_cons] at hc
+    rcases hc with hc | hc | hc
+    · exact h x List.mem_cons_self c hc
+    · subst hc; decide
+    · exact joinSp_ok (y :: r) (fun t ht => h t (List.mem_cons_of_mem _ ht)) c hc
+
+/-- a clause line without its leading newline -/
+def clauseBody (c : Clause) : List Char := joinSp (c.map showLit) ++ [' ', '0']
+
+theorem clauseLine_eq (c : Clause) : clauseLine c = '\n' :: clauseBody c := rfl
+
+theorem clauseBody_ok (c : Clause) : ∀ ch ∈ clauseBody c, okCh ch = true := by
+  intro ch hc
+  simp only [clauseBody, List.mem_append, List.mem_cons, List.not_mem_nil, or_false] at hc
+  rcases hc with hc | hc | hc
+  · refine joinSp_ok (c.map showLit) ?_ ch hc
+    intro t ht
+    obtain ⟨l, _, rfl⟩ := List.mem_map.mp ht
+    exact showLit_ok l
+  · subst hc; decide
+  · subst hc; decide
+
+theorem tokens_clauseBody (c : Clause) : tokens (clauseBody c) = c.map showLit ++ [['0']] := by
+  simp only [clauseBody]
+  rw [tokens_append_ws _ _ ' ' (by decide), tokens_joinSp]
+  · rfl
+  · intro t ht
+    obtain ⟨l, _, rfl⟩ := List.mem_map.mp ht
+    exact ⟨showLit_ne_nil l, showLit_not_ws l⟩
+
+theorem skipLine_clauseBody (c : Clause) : skipLine (clauseBody c) = false := by
+  simp only [skipLine, firstChar?]
+  cases h : (List.dropWhile isWs (clauseBody c)).head? with
+  | none => rfl
+  | some ch =>
+    have hm : ch ∈ clauseBody c :=
+      (List.dropWhile_sublist _).subset (List.mem_of_mem_head? h)
+    simpa using okCh_not_cp (clauseBody_ok c ch hm)
+
+/-- lines of `pre ++ to_dimacs cs`: the lines of `pre`, then one line per clause -/
+theorem lines_toDimacs : ∀ (cs : Cnf) (pre : List Char),
+    splitAt isNl (pre ++ toDimacsChars cs) = splitAt isNl pre ++ cs.map clauseBody
+  | [], pre => by simp [toDimacsChars]
+  | c :: rest, pre => by
+    have ih := lines_toDimacs rest (clauseBody c)
+    simp only [toDimacsChars, List.flatMap_cons, clauseLine_eq, List.cons_append] at ih ⊢
+    rw [splitAt_append_sep isNl '\n' (by decide) _ pre, ih,
+        splitAt_none isNl (clauseBody c) (fun ch h => okCh_not_nl (clauseBody_ok c ch h))]
+    simp
+
+/-! ### numbers -/
+
+theorem digitsVal_eq (cs : List Char) : digitsVal cs = Nat.ofDigitChars 10 cs 0 := rfl
+
+theorem parseNat_toDigits (n : Nat) : parseNat? (Nat.toDigits 10 n) = some n := by
+  have h1 : (Nat.toDigits 10 n).isEmpty = false := by
+    cases h : Nat.toDigits 10 n with
+    | nil => exact absurd h Nat.toDigits_ne_nil
+    | cons _ _ => rfl
+  have h2 : (Nat.toDigits 10 n).all Char.isDigit = true :=
+    List.all_eq_true.mpr fun c hc => Nat.isDigit_of_mem_toDigits (by decide) (by decide) hc
+  simp [parseNat?, h1, h2, digitsVal_eq]
+
+/-- the signed integer `to_dimacs` prints for a literal -/
+def intOfLit (l : Lit) : Int := if l.pol then ((l.var + 1 : Nat) : Int) else -((l.var + 1 : Nat) : Int)
+
+theorem parseInt_showLit (l : Lit) : parseInt? (showLit l) = some (intOfLit l) := by
+  cases hp : l.pol with
+  | false =>
+    simp [showLit, hp, parseInt?, parseNat_toDigits, intOfLit]
+  | true =>
+    simp only [showLit, hp, if_true, List.nil_append, intOfLit]
+    cases hd : Nat.toDigits 10 (l.var + 1) with
+    | nil => exact absurd hd Nat.toDigits_ne_nil
+    | cons ch r =>
+      have hdig : ch.isDigit = true :=
+        Nat.isDigit_of_mem_toDigits (by decide) (by decide) (hd ▸ List.mem_cons_self)
+      have hne : ch ≠ '-' := by intro e; rw [e] at hdig; exact absurd hdig (by decide)
+      have hn := parseNat_toDigits (l.var + 1)
+      rw [hd] at hn
+      unfold parseInt?
+      split
+      · rename_i heq; cases heq; exact absurd rfl hne
+      · simp [hn]
+
+theorem litOfInt_intOfLit (l : Lit) : litOfInt (intOfLit l) = l := by
+  obtain ⟨v, p⟩ := l
+  cases p <;> simp [intOfLit, litOfInt] <;> omega
+
+theorem litOfSigned_eq_litOfInt (z : Int) : litOfSigned z = litOfInt z := by
+  simp only [litOfSigned, litOfInt]
+  split
+  · rename_i h; simp [h]; omega
+  · rename_i h; simp [h]; omega
+
+theorem intOfLit_ne_zero (l : Lit) : intOfLit l ≠ 0 := by
+  simp only [intOfLit]; split <;> omega
+
+/-! ### tokens → integers → clauses -/
+
+def tokLine (c : Clause) : List (List Char) := c.map showLit ++ [['0']]
+def intLine (c : Clause) : List Int := c.map intOfLit ++ [0]
+
+theorem mapM_parseInt_lits : ∀ (c : Clause),
+    (c.map showLit).mapM parseInt? = some (c.map intOfLit)
+  | [] => rfl
+  | l :: r => by simp [List.mapM_cons, parseInt_showLit, mapM_parseInt_lits r]
+
+theorem parseInt_zero : parseInt? ['0'] = some 0 := by decide
+
+theorem mapM_parseInt_line (c : Clause) : (tokLine c).mapM parseInt? = some (intLine c) := by
+  unfold tokLine intLine
+  rw [List.mapM_append, mapM_parseInt_lits]
+  simp [List.mapM_cons, parseInt_zero]
+
+theorem mapM_parseInt_lines : ∀ (cs : Cnf),
+    (cs.flatMap tokLine).mapM parseInt? = some (cs.flatMap intLine)
+  | [] => rfl
+  | c :: r => by
+    simp [List.flatMap_cons, List.mapM_append, mapM_parseInt_line, mapM_parseInt_lines r]
+
+theorem clausesOf_line (rest : List Int) : ∀ (c : List Int), (∀ z ∈ c, z ≠ 0) →
+    clausesOf (c ++ 0 :: rest) = c :: clausesOf rest
+  | [], _ => by simp [clausesOf]
+  | z :: c, h => by
+    have hz : z ≠ 0 := h z List.mem_cons_self
+    have ih := clausesOf_line rest c (fun x hx => h x (List.mem_cons_of_mem _ hx))
+    simp [clausesOf, hz, ih]
+
+theorem clausesOf_lines : ∀ (cs : Cnf), clausesOf (cs.flatMap intLine) = cs.map (·.map intOfLit)
+  | [] => rfl
+  | c :: r => by
+    simp only [List.flatMap_cons, intLine, List.append_assoc, List.singleton_append, List.map_cons]
+    rw [clausesOf_line _ _ (by
+      intro z hz; obtain ⟨l, _, rfl⟩ := List.mem_map.mp hz; exact intOfLit_ne_zero l)]
+    rw [clausesOf_lines r]
+
+/-- text that carries no clause: every line is a comment, the problem line, or blank -/
+def HeaderOnly (pre : List Char) : Prop :=
+  ∀ ln ∈ splitAt isNl pre, skipLine ln = true ∨ tokens ln = []
+
+theorem headerOnly_tokens (pre : List Char) (h : HeaderOnly pre) :
+    ((splitAt isNl pre).filter (fun ln => !skipLine ln)).flatMap tokens = [] := by
+  rw [List.flatMap_eq_nil_iff]
+  intro ln hln
+  obtain ⟨hm, hs⟩ := List.mem_filter.mp hln
+  rcases h ln hm with h1 | h1
+  · simp [h1] at hs
+  · exact h1
+
+/-- **the integers read back from `pre ++ to_dimacs cs`** -/
+theorem dimacsInts_toDimacs (cs : Cnf) (pre : List Char) (hpre : HeaderOnly pre) :
+    dimacsIntsChars (pre ++ toDimacsChars cs) = some (cs.map (·.map intOfLit)) := by
+  have hbody : (cs.map clauseBody).filter (fun ln => !skipLine ln) = cs.map clauseBody := by
+    rw [List.filter_eq_self]
+    intro ln hln
+    obtain ⟨c, _, rfl⟩ := List.mem_map.mp hln
+    simp [skipLine_clauseBody]
+  have htok : (cs.map clauseBody).flatMap tokens = cs.flatMap tokLine := by
+    rw [List.flatMap_map]
+    congr 1; funext c; exact tokens_clauseBody c
+  simp only [dimacsIntsChars, lines_toDimacs, List.filter_append, List.flatMap_append,
+    headerOnly_tokens pre hpre, hbody, htok, List.nil_append, mapM_parseInt_lines,
+    Option.map_some, clausesOf_lines]
+
+/-- **reading back what `to_dimacs` printed gives the very same clause lists** (spec reader) -/
+theorem parseDimacsChars_toDimacs (cs : Cnf) (pre : List Char) (hpre : HeaderOnly pre) :
+    parseDimacsChars (pre ++ toDimacsChars cs) = some cs := by
+  simp only [parseDimacsChars, dimacsInts_toDimacs cs pre hpre, Option.map_some, cnfOfInts,
+    List.map_map]
+  congr 1
+  conv => rhs; rw [← List.map_id cs]
+  apply List.map_congr_left
+  intro c _
+  simp only [Function.comp, id]
+  conv => rhs; rw [← List.map_id c]
+  rw [List.map_map]
+  apply List.map_congr_left
+  intro l _
+  simp [litOfInt_intOfLit]
+
+/-- a single line starting with `p` (e.g. `p cnf 3 2`) carries no clause -/
+theorem headerOnly_p (l : List Char) (hnl : ∀ c ∈ l, c ≠ '\n') : HeaderOnly ('p' :: l) := by
+  intro ln hln
+  rw [splitAt_none isNl ('p' :: l) (by
+    intro c hc
+    rcases List.mem_cons.mp hc with rfl | hc
+    · decide
+    · simpa [isNl] using hnl c hc)] at hln
+  simp only [List.mem_singleton] at hln
+  subst hln
+  left; simp [skipLine, firstChar?, List.dropWhile, isWs]
+
+/-! ## `Cnf::new`: membership, semantics, idempotence -/
+
+theorem mem_insertByLabel (x y : Lit) : ∀ l, y ∈ insertByLabel x l ↔ y = x ∨ y ∈ l
+  | [] => by simp [insertByLabel]
+  | z :: r => by
+    simp only [insertByLabel]
+    split
+    · simp
+    · simp only [List.mem_cons, mem_insertByLabel x y r]
+      constructor
+      · rintro (h | h | h) <;> simp [h]
+      · rintro (h | h | h) <;> simp [h]
+
+theorem mem_sortByLabel (y : Lit) : ∀ l, y ∈ sortByLabel l ↔ y ∈ l
+  | [] => by simp [sortByLabel]
+  | x :: r => by simp [sortByLabel, mem_insertByLabel, mem_sortByLabel y r]
+
+theorem dedup_cons_head (y : Lit) : ∀ r, ∃ t, dedup (y :: r) = y :: t
+  | [] => ⟨[], rfl⟩
+  | z :: r => by
+    simp only [dedup]
+    split
+    · rename_i h; subst h; exact dedup_cons_head y r
+    · exact ⟨_, rfl⟩
+
+theorem mem_dedup (y : Lit) : ∀ l, y ∈ dedup l ↔ y ∈ l
+  | [] => by simp [dedup]
+  | [x] => by simp [dedup]
+  | x :: z :: r => by
+    have ih := mem_dedup y (z :: r)
+    simp only [dedup]
+    split
+    · rename_i h; subst h; rw [ih]; simp
+    · simp only [List.mem_cons] at ih ⊢; rw [ih]
+
+theorem dedup_sublist : ∀ l, (dedup l).Sublist l
+  | [] => by simp [dedup]
+  | [x] => by simp [dedup]
+  | x :: z :: r => by
+    simp only [dedup]
+    split
+    · exact (dedup_sublist (z :: r)).cons _
+    · exact (dedup_sublist (z :: r)).cons_cons _
+
+/-- the literals of a clause of `Cnf::new` are those of the given clause -/
+theorem mem_cnfNew_clause (c : Clause) (y : Lit) : y ∈ dedup (sortByLabel c) ↔ y ∈ c := by
+  rw [mem_dedup, mem_sortByLabel]
+
+theorem clauseSat_congr (a : Assign) {c c' : Clause} (h : ∀ y, y ∈ c ↔ y ∈ c') :
+    clauseSat a c = clauseSat a c' := by
+  simp only [clauseSat]
+  rw [Bool.eq_iff_iff, List.any_eq_true, List.any_eq_true]
+  constructor
+  · rintro ⟨y, hy, hs⟩; exact ⟨y, (h y).mp hy, hs⟩
+  · rintro ⟨y, hy, hs⟩; exact ⟨y, (h y).mpr hy, hs⟩
+
+theorem cnfSat_cnfNew (a : Assign) : ∀ (cs : Cnf), cnfSat a (cnfNew cs) = cnfSat a cs
+  | [] => rfl
+  | c :: r => by
+    have ih := cnfSat_cnfNew a r
+    simp only [cnfSat, cnfNew, List.map_cons, List.all_cons] at ih ⊢
+    rw [ih, clauseSat_congr a (mem_cnfNew_clause c)]
+
+/-- increasing labels -/
+def Sorted (l : List Lit) : Prop := l.Pairwise (fun x y => x.var ≤ y.var)
+
+theorem insertByLabel_sorted (x : Lit) : ∀ l, Sorted l → Sorted (insertByLabel x l)
+  | [], _ => by simp [insertByLabel, Sorted]
+  | z :: r, h => by
+    simp only [insertByLabel]
+    have hz := List.pairwise_cons.mp h
+    split
+    · rename_i hle
+      exact List.pairwise_cons.mpr ⟨fun y hy => by
+        rcases List.mem_cons.mp hy with rfl | hy
+        · exact hle
+        · exact Nat.le_trans hle (hz.1 y hy), h⟩
+    · rename_i hle
+      refine List.pairwise_cons.mpr ⟨fun y hy => ?_, insertByLabel_sorted x r hz.2⟩
+      rcases (mem_insertByLabel x y r).mp hy with rfl | hy
+      · omega
+      · exact hz.1 y hy
+
+theorem sortByLabel_sorted : ∀ l, Sorted (sortByLabel l)
+  | [] => List.Pairwise.nil
+  | x :: r => insertByLabel_sorted x _ (sortByLabel_sorted r)
+
+theorem sortByLabel_of_sorted : ∀ l, Sorted l → sortByLabel l = l
+  | [], _ => rfl
+  | x :: r, h => by
+    have hz := List.pairwise_cons.mp h
+    rw [sortByLabel, sortByLabel_of_sorted r hz.2]
+    cases r with
+    | nil => rfl
+    | cons y r' => simp [insertByLabel, hz.1 y List.mem_cons_self]
+
+/-- no two neighbours are equal -/
+def NoAdj : List Lit → Prop
+  | [] => True
+  | [_] => True
+  | x :: y :: r => x ≠ y ∧ NoAdj (y :: r)
+
+theorem dedup_noAdj : ∀ l, NoAdj (dedup l)
+  | [] => trivial
+  | [x] => trivial
+  | x :: z :: r => by
+    have ih := dedup_noAdj (z :: r)
+    simp only [dedup]
+    split
+    · exact ih
+    · rename_i hne
+      obtain ⟨t, ht⟩ := dedup_cons_head z r
+      rw [ht] at ih ⊢
+      exact ⟨hne, ih⟩
+
+theorem dedup_of_noAdj : ∀ l, NoAdj l → dedup l = l
+  | [], _ => rfl
+  | [x], _ => rfl
+  | x :: z :: r, h => by
+    simp only [dedup, if_neg h.1, dedup_of_noAdj (z :: r) h.2]
+
+/-- **`Cnf::new` is idempotent**: the stored clause vectors are a normal form -/
+theorem cnfNew_idem (cs : Cnf) : cnfNew (cnfNew cs) = cnfNew cs := by
+  simp only [cnfNew, List.map_map]
+  apply List.map_congr_left
+  intro c _
+  simp only [Function.comp]
+  have hs : Sorted (dedup (sortByLabel c)) :=
+    List.Pairwise.sublist (dedup_sublist _) (sortByLabel_sorted c)
+  rw [sortByLabel_of_sorted _ hs, dedup_of_noAdj _ (dedup_noAdj _)]
+
+/-! ## the glue of `Cnf::from_dimacs` -/
+
+theorem fromDimacsClauses_eq (zs : List (List Int)) :
+    fromDimacsClauses zs = cnfNew (cnfOfInts zs) := by
+  simp only [fromDimacsClauses, cnfOfInts]
+  congr 1
+  apply List.map_congr_left; intro c _
+  apply List.map_congr_left; intro z _
+  exact litOfSigned_eq_litOfInt z
+
+/-- **`Cnf::from_dimacs` keeps the models** (label = number − 1) -/
+theorem fromDimacsClauses_sem (zs : List (List Int)) (a : Assign) :
+    cnfSat a (fromDimacsClauses zs) = cnfSat a (cnfOfInts zs) := by
+  rw [fromDimacsClauses_eq, cnfSat_cnfNew]
+
+theorem cnfFromDimacs_eq (s : String) : cnfFromDimacs s = (parseDimacs s).map cnfNew := by
+  simp only [cnfFromDimacs, parseDimacs, parseDimacsChars, dimacsInts, Option.map_map]
+  congr 1; funext zs; exact fromDimacsClauses_eq zs
+
+theorem cnfOfInts_intOfLit (cs : Cnf) : cnfOfInts (cs.map (·.map intOfLit)) = cs := by
+  simp only [cnfOfInts, List.map_map]
+  conv => rhs; rw [← List.map_id cs]
+  apply List.map_congr_left
+  intro c _
+  simp only [Function.comp, id, List.map_map]
+  conv => rhs; rw [← List.map_id c]
+  apply List.map_congr_left
+  intro l _
+  simp [litOfInt_intOfLit]
+
+/-! ## `LogicalExpr::from_dimacs` -/
+
+theorem foldl_or_eval (a : Assign) : ∀ (xs : List LogicalExpr) (init : LogicalExpr),
+    (xs.foldl .or init).eval a = (init.eval a || xs.any (·.eval a))
+  | [], init => by simp
+  | x :: r, init => by
+    simp [foldl_or_eval a r, LogicalExpr.eval, Bool.or_assoc]
+
+theorem foldl_and_eval (a : Assign) : ∀ (xs : List LogicalExpr) (init : LogicalExpr),
+    (xs.foldl .and init).eval a = (init.eval a && xs.all (·.eval a))
+  | [], init => by simp
+  | x :: r, init => by
+    simp [foldl_and_eval a r, LogicalExpr.eval, Bool.and_assoc]
+
+theorem popFold_some {α : Type} (op : α → α → α) (xs : List α) (r : α)
+    (h : popFold op xs = some r) : ∃ l, xs = xs.dropLast ++ [l] ∧ r = xs.dropLast.foldl op l := by
+  simp only [popFold] at h
+  cases hl : xs.getLast? with
+  | none => rw [hl] at h; cases h
+  | some l =>
+    rw [hl] at h; cases h
+    refine ⟨l, ?_, rfl⟩
+    have hne : xs ≠ [] := by intro e; subst e; simp at hl
+    rw [List.getLast?_eq_some_getLast hne] at hl
+    cases hl
+    exact (List.dropLast_concat_getLast hne).symm
+
+theorem popFold_none {α : Type} (op : α → α → α) (xs : List α) :
+    popFold op xs = none ↔ xs = [] := by
+  simp only [popFold]
+  cases hl : xs.getLast? with
+  | none => simpa using hl
+  | some l =>
+    simp only [reduceCtorEq, false_iff]
+    intro e; subst e; simp at hl
+
+theorem popFold_or_eval (a : Assign) (xs : List LogicalExpr) (r : LogicalExpr)
+    (h : popFold .or xs = some r) : r.eval a = xs.any (·.eval a) := by
+  obtain ⟨l, hx, rfl⟩ := popFold_some _ _ _ h
+  rw [foldl_or_eval]
+  conv => rhs; rw [hx]
+  simp [Bool.or_comm]
+
+theorem popFold_and_eval (a : Assign) (xs : List LogicalExpr) (r : LogicalExpr)
+    (h : popFold .and xs = some r) : r.eval a = xs.all (·.eval a) := by
+  obtain ⟨l, hx, rfl⟩ := popFold_some _ _ _ h
+  rw [foldl_and_eval]
+  conv => rhs; rw [hx]
+  simp [Bool.and_comm]
+
+/-- the assignment of **1-based** labels seen through 0-based ones -/
+def shift (a : Assign) : Assign := fun x => a (x + 1)
+
+theorem exprLit_eval (a : Assign) (z : Int) (hz : z ≠ 0) :
+    (exprLitOfSigned z).eval a = litSat (shift a) (litOfInt z) := by
+  simp only [exprLitOfSigned, LogicalExpr.eval, litSat, litOfInt, shift]
+  by_cases h : 0 < z
+  · have : z.toNat - 1 + 1 = z.natAbs := by omega
+    simp [h, this]
+  · have : (-z).toNat - 1 + 1 = z.natAbs := by omega
+    simp [h, this]
+
+theorem mapM_clauses_eval (a : Assign) : ∀ (zs : List (List Int)) (cls : List LogicalExpr),
+    (∀ c ∈ zs, ∀ z ∈ c, z ≠ 0) →
+    zs.mapM (fun c => popFold LogicalExpr.or (c.map exprLitOfSigned)) = some cls →
+    cls.all (·.eval a) = cnfSat (shift a) (cnfOfInts zs)
+  | [], cls, _, h => by
+    simp at h; subst h; rfl
+  | c :: r, cls, hnz, h => by
+    rw [List.mapM_cons] at h
+    cases hc : popFold LogicalExpr.or (c.map exprLitOfSigned) with
+    | none => simp [hc] at h
+    | some e =>
+      cases hr : r.mapM (fun c => popFold LogicalExpr.or (c.map exprLitOfSigned)) with
+      | none => simp [hc, hr] at h
+      | some es =>
+        simp [hc, hr] at h; subst h
+        have ih := mapM_clauses_eval a r es (fun c' hc' => hnz c' (List.mem_cons_of_mem _ hc')) hr
+        have he := popFold_or_eval a _ e hc
+        simp only [List.all_cons, ih, he, cnfSat, cnfOfInts, List.map_cons, clauseSat,
+          List.any_map]
+        congr 1
+        apply List.any_congr
+        intro z hz
+        exact exprLit_eval a z (hnz c List.mem_cons_self z hz)
+  where
+    List.any_congr {α : Type} {l : List α} {f g : α → Bool} (h : ∀ x ∈ l, f x = g x) :
+        l.any f = l.any g := by
+      induction l with
+      | nil => rfl
+      | cons x r ih =>
+        simp only [List.any_cons, h x List.mem_cons_self,
+          ih (fun y hy => h y (List.mem_cons_of_mem _ hy))]
+
+/-- **`LogicalExpr::from_dimacs` keeps the models under label = number** -/
+theorem exprFromDimacsClauses_sem (zs : List (List Int)) (e : LogicalExpr) (a : Assign)
+    (hnz : ∀ c ∈ zs, ∀ z ∈ c, z ≠ 0) (h : exprFromDimacsClauses zs = some e) :
+    e.eval a = cnfSat (shift a) (cnfOfInts zs) := by
+  simp only [exprFromDimacsClauses] at h
+  cases hm : zs.mapM (fun c => popFold LogicalExpr.or (c.map exprLitOfSigned)) with
+  | none => simp [hm] at h
+  | some cls =>
+    simp [hm] at h
+    rw [popFold_and_eval a cls e h, mapM_clauses_eval a zs cls hnz hm]
+
+theorem clausesOf_nonzero : ∀ (zs : List Int), ∀ c ∈ clausesOf zs, ∀ z ∈ c, z ≠ 0
+  | [], c, hc => by simp [clausesOf] at hc
+  | x :: r, c, hc => by
+    have ih := clausesOf_nonzero r
+    simp only [clausesOf] at hc
+    split at hc
+    · rcases List.mem_cons.mp hc with rfl | hc
+      · simp
+      · exact ih c hc
+    · rename_i hx
+      split at hc
+      · simp only [List.mem_singleton] at hc; subst hc
+        intro z hz; simp only [List.mem_singleton] at hz; subst hz; exact hx
+      · rename_i c0 cs0 heq
+        rw [heq] at ih
+        rcases List.mem_cons.mp hc with rfl | hc
+        · intro z hz
+          rcases List.mem_cons.mp hz with rfl | hz
+          · exact hx
+          · exact ih c0 List.mem_cons_self z hz
+        · exact ih c (List.mem_cons_of_mem _ hc)
+
+
+/-! ## s-expressions -/
+
+/-- the typed tree evaluated under an assignment of names (proof device: links the text-level
+evaluator with the indexed expression) -/
+def LogicalSExpr.evalNames (ρ : NameAssign) : LogicalSExpr → Bool
+  | .tru => true
+  | .fls => false
+  | .var s => ρ s
+  | .not e => !(e.evalNames ρ)
+  | .or l r => l.evalNames ρ || r.evalNames ρ
+  | .and l r => l.evalNames ρ && r.evalNames ρ
+  | .iff l r => l.evalNames ρ == r.evalNames ρ
+  | .xor l r => Bool.xor (l.evalNames ρ) (r.evalNames ρ)
+  | .ite g t e => if g.evalNames ρ then t.evalNames ρ else e.evalNames ρ
+
+def LogicalSExpr.hasConst : LogicalSExpr → Bool
+  | .tru | .fls => true
+  | .var _ => false
+  | .not e => e.hasConst
+  | .or l r | .and l r | .iff l r | .xor l r => l.hasConst || r.hasConst
+  | .ite g t e => g.hasConst || t.hasConst || e.hasConst
+
+/-- the stand-in for the deserialiser is faithful to the text: same value under every assignment
+of names, same names, same constants -/
+theorem ofSExp_spec (ρ : NameAssign) (t : SExp) :
+    ∀ e, LogicalSExpr.ofSExp t = some e →
+      evalSExp ρ t = some (e.evalNames ρ) ∧ namesOf t = e.uniqueVariables ∧
+      Spec.Text.hasConst t = e.hasConst := by
+  fun_induction LogicalSExpr.ofSExp t
+  case case1 => intro e h; cases h; simp [evalSExp, namesOf, Spec.Text.hasConst, LogicalSExpr.evalNames, LogicalSExpr.uniqueVariables, LogicalSExpr.hasConst]
+  case case2 => intro e h; cases h; simp [evalSExp, namesOf, Spec.Text.hasConst, LogicalSExpr.evalNames, LogicalSExpr.uniqueVariables, LogicalSExpr.hasConst]
+  case case3 => intro e h; cases h; simp [evalSExp, namesOf, Spec.Text.hasConst, LogicalSExpr.evalNames, LogicalSExpr.uniqueVariables, LogicalSExpr.hasConst]
+  case case4 e1 ih =>
+    intro e h
+    cases h1 : LogicalSExpr.ofSExp e1 with
+    | none => simp [h1] at h
+    | some x =>
+      simp [h1] at h; subst h
+      obtain ⟨i1, i2, i3⟩ := ih x h1
+      simp [evalSExp, namesOf, Spec.Text.hasConst, LogicalSExpr.evalNames, LogicalSExpr.uniqueVariables, LogicalSExpr.hasConst, i1, i2, i3]
+  case case10 => intro e h; cases h
+  case case9 g1 e1 f1 ih3 ih2 ih1 =>
+    intro e h
+    cases h0 : LogicalSExpr.ofSExp g1 with
+    | none => simp [h0] at h
+    | some c =>
+      cases h1 : LogicalSExpr.ofSExp e1 with
+      | none => simp [h0, h1] at h
+      | some x =>
+        cases h2 : LogicalSExpr.ofSExp f1 with
+        | none => simp [h0, h1, h2] at h
+        | some y =>
+          simp [h0, h1, h2] at h; subst h
+          obtain ⟨k1, k2, k3⟩ := ih3 c h0
+          obtain ⟨i1, i2, i3⟩ := ih2 x h1
+          obtain ⟨j1, j2, j3⟩ := ih1 y h2
+          simp [evalSExp, namesOf, Spec.Text.hasConst, LogicalSExpr.evalNames, LogicalSExpr.uniqueVariables, LogicalSExpr.hasConst, i1, i2, i3, j1, j2, j3, k1, k2, k3]
+  all_goals
+    rename_i e1 f1 ih2 ih1
+    intro e h
+    cases h1 : LogicalSExpr.ofSExp e1 with
+    | none => simp [h1] at h
+    | some x =>
+      cases h2 : LogicalSExpr.ofSExp f1 with
+      | none => simp [h1, h2] at h
+      | some y =>
+        simp [h1, h2] at h; subst h
+        obtain ⟨i1, i2, i3⟩ := ih2 x h1
+        obtain ⟨j1, j2, j3⟩ := ih1 y h2
+        simp [evalSExp, namesOf, Spec.Text.hasConst, LogicalSExpr.evalNames, LogicalSExpr.uniqueVariables, LogicalSExpr.hasConst, i1, i2, i3, j1, j2, j3]
+
+/-! ### the lexicographic numbering -/
+
+theorem str_lt_of_not (x y : String) (h1 : ¬ x < y) (h2 : x ≠ y) : y < x := by
+  apply Classical.byContradiction
+  intro h3
+  exact h2 (String.le_antisymm (String.not_lt.mp h3) (String.not_lt.mp h1))
+
+def StrictSorted (l : List String) : Prop := l.Pairwise (· < ·)
+
+theorem mem_insertName (x y : String) : ∀ l, y ∈ insertName x l ↔ y = x ∨ y ∈ l
+  | [] => by simp [insertName]
+  | z :: r => by
+    simp only [insertName]
+    split
+    · simp
+    · split
+      · rename_i h; subst h; simp
+      · simp only [List.mem_cons, mem_insertName x y r]
+        constructor
+        · rintro (h | h | h) <;> simp [h]
+        · rintro (h | h | h) <;> simp [h]
+
+theorem insertName_sorted (x : String) : ∀ l, StrictSorted l → StrictSorted (insertName x l)
+  | [], _ => by simp [insertName, StrictSorted]
+  | z :: r, h => by
+    have hz := List.pairwise_cons.mp h
+    simp only [insertName]
+    split
+    · rename_i hlt
+      exact List.pairwise_cons.mpr ⟨fun y hy => by
+        rcases List.mem_cons.mp hy with rfl | hy
+        · exact hlt
+        · exact String.lt_trans hlt (hz.1 y hy), h⟩
+    · split
+      · exact h
+      · rename_i h1 h2
+        refine List.pairwise_cons.mpr ⟨fun y hy => ?_, insertName_sorted x r hz.2⟩
+        rcases (mem_insertName x y r).mp hy with rfl | hy
+        · exact str_lt_of_not _ _ h1 h2
+        · exact hz.1 y hy
+
+theorem mem_sortedNames (y : String) : ∀ l, y ∈ sortedNames l ↔ y ∈ l
+  | [] => by simp [sortedNames]
+  | x :: r => by
+    have ih := mem_sortedNames y r
+    simp only [sortedNames, List.foldr_cons] at ih ⊢
+    rw [mem_insertName, ih]; simp
+
+theorem sortedNames_sorted : ∀ l, StrictSorted (sortedNames l)
+  | [] => List.Pairwise.nil
+  | x :: r => by
+    have ih := sortedNames_sorted r
+    simp only [sortedNames, List.foldr_cons] at ih ⊢
+    exact insertName_sorted x _ ih
+
+theorem mem_distinct (y : String) : ∀ l, y ∈ distinct l ↔ y ∈ l
+  | [] => by simp [distinct]
+  | x :: r => by
+    have ih := mem_distinct y r
+    simp only [distinct]
+    split
+    · rename_i hx
+      rw [ih]; constructor
+      · exact List.mem_cons_of_mem _
+      · intro h; rcases List.mem_cons.mp h with rfl | h
+        · exact hx
+        · exact h
+    · simp [ih]
+
+theorem distinct_nodup : ∀ l, (distinct l).Nodup
+  | [] => by simp [distinct]
+  | x :: r => by
+    simp only [distinct]
+    split
+    · exact distinct_nodup r
+    · rename_i hx
+      exact List.nodup_cons.mpr ⟨fun h => hx ((mem_distinct x r).mp h), distinct_nodup r⟩
+
+theorem strictSorted_nodup {l : List String} (h : StrictSorted l) : l.Nodup :=
+  List.Pairwise.imp (fun {a b} hab e => by subst e; exact String.lt_irrefl _ hab) h
+
+/-- position in a strictly increasing list = number of smaller members -/
+theorem mapGet_zipIdx_sorted (x : String) : ∀ (l : List String) (k : Nat), StrictSorted l → x ∈ l →
+    mapGet (l.zipIdx k) x = some (k + (l.filter (fun y => decide (y < x))).length)
+  | [], _, _, hx => by simp at hx
+  | y :: r, k, hs, hx => by
+    have hz := List.pairwise_cons.mp hs
+    simp only [List.zipIdx_cons, mapGet]
+    split
+    · rename_i he; subst he
+      have : (List.filter (fun y => decide (y < x)) (x :: r)) = [] := by
+        rw [List.filter_eq_nil_iff]
+        intro z hz'
+        rcases List.mem_cons.mp hz' with rfl | hz'
+        · simp [String.lt_irrefl]
+        · simpa using String.lt_asymm (hz.1 z hz')
+      simp [this]
+    · rename_i hne
+      have hxr : x ∈ r := by
+        rcases List.mem_cons.mp hx with rfl | h
+        · exact absurd rfl hne
+        · exact h
+      rw [mapGet_zipIdx_sorted x r (k + 1) hz.2 hxr]
+      simp [hz.1 x hxr]; omega
+
+theorem indexIn_eq_sorted (names : List String) (x : String) :
+    indexIn names x = ((sortedNames names).filter (fun y => decide (y < x))).length := by
+  have hp : (distinct names).Perm (sortedNames names) :=
+    (List.perm_ext_iff_of_nodup (distinct_nodup names)
+      (strictSorted_nodup (sortedNames_sorted names))).mpr
+      (fun a => by rw [mem_distinct, mem_sortedNames])
+  exact (hp.filter _).length_eq
+
+/-- **`variable_mapping` is the documented numbering** -/
+theorem variableMapping_spec (e : LogicalSExpr) (x : String) (hx : x ∈ e.uniqueVariables) :
+    mapGet e.variableMapping x = some (indexIn e.uniqueVariables x) := by
+  rw [LogicalSExpr.variableMapping,
+    mapGet_zipIdx_sorted x _ 0 (sortedNames_sorted _) ((mem_sortedNames x _).mpr hx),
+    indexIn_eq_sorted]
+  simp
+
+/-! ### `from_sexpr` -/
+
+theorem xor_formula (x y : Bool) : ((!x && y) || (x && !y)) = Bool.xor x y := by
+  cases x <;> cases y <;> rfl
+
+/-- the helper, for any mapping that answers the documented index on the names of the tree -/
+theorem fromSexprHelper_sem (m : List (String × Nat)) (idx : String → Nat) (a : Assign)
+    (e : LogicalSExpr) :
+    (∀ x ∈ e.uniqueVariables, mapGet m x = some (idx x)) →
+    ∀ le, fromSexprHelper m e = some le → le.eval a = e.evalNames (fun x => a (idx x)) := by
+  fun_induction fromSexprHelper m e
+  case case1 => intro _ le h; cases h
+  case case2 => intro _ le h; cases h
+  case case3 s =>
+    intro hm le h
+    rw [hm s (by simp [LogicalSExpr.uniqueVariables])] at h
+    cases h; simp [LogicalExpr.eval, LogicalSExpr.evalNames]
+  case case4 s =>
+    intro hm le h
+    rw [hm s (by simp [LogicalSExpr.uniqueVariables])] at h
+    cases h; simp [LogicalExpr.eval, LogicalSExpr.evalNames]
+  case case5 e1 _ ih =>
+    intro hm le h
+    cases h1 : fromSexprHelper m e1 with
+    | none => simp [h1] at h
+    | some x =>
+      simp [h1] at h; subst h
+      simp [LogicalExpr.eval, LogicalSExpr.evalNames, ih (by simpa [LogicalSExpr.uniqueVariables] using hm) x h1]
+  case case10 g t e1 ih3 ih2 ih1 =>
+    intro hm le h
+    simp only [LogicalSExpr.uniqueVariables, List.mem_append] at hm
+    cases h0 : fromSexprHelper m g with
+    | none => simp [h0] at h
+    | some c =>
+      cases h1 : fromSexprHelper m t with
+      | none => simp [h0, h1] at h
+      | some x =>
+        cases h2 : fromSexprHelper m e1 with
+        | none => simp [h0, h1, h2] at h
+        | some y =>
+          simp [h0, h1, h2] at h; subst h
+          simp [LogicalExpr.eval, LogicalSExpr.evalNames,
+            ih3 (fun x hx => hm x (Or.inl (Or.inl hx))) c h0,
+            ih2 (fun x hx => hm x (Or.inl (Or.inr hx))) x h1,
+            ih1 (fun x hx => hm x (Or.inr hx)) y h2]
+  all_goals
+    rename_i l r ih2 ih1
+    intro hm le h
+    simp only [LogicalSExpr.uniqueVariables, List.mem_append] at hm
+    cases h1 : fromSexprHelper m l with
+    | none => simp [h1] at h
+    | some x =>
+      cases h2 : fromSexprHelper m r with
+      | none => simp [h1, h2] at h
+      | some y =>
+        simp [h1, h2] at h; subst h
+        simp [LogicalExpr.eval, LogicalSExpr.evalNames, xor_formula,
+          ih2 (fun x hx => hm x (Or.inl hx)) x h1, ih1 (fun x hx => hm x (Or.inr hx)) y h2]
+
+/-- the helper answers (no `todo!()`, no failed `unwrap`) on constant-free trees whose names the
+mapping knows -/
+theorem fromSexprHelper_total (m : List (String × Nat)) (e : LogicalSExpr) :
+    (∀ x ∈ e.uniqueVariables, (mapGet m x).isSome) → e.hasConst = false →
+    (fromSexprHelper m e).isSome := by
+  fun_induction fromSexprHelper m e
+  case case1 => intro _ h; simp [LogicalSExpr.hasConst] at h
+  case case2 => intro _ h; simp [LogicalSExpr.hasConst] at h
+  case case3 s =>
+    intro hm _
+    have := hm s (by simp [LogicalSExpr.uniqueVariables])
+    cases hg : mapGet m s <;> simp_all
+  case case4 s =>
+    intro hm _
+    have := hm s (by simp [LogicalSExpr.uniqueVariables])
+    cases hg : mapGet m s <;> simp_all
+  case case5 e1 _ ih =>
+    intro hm hc
+    have := ih (by simpa [LogicalSExpr.uniqueVariables] using hm) (by simpa [LogicalSExpr.hasConst] using hc)
+    cases hg : fromSexprHelper m e1 <;> simp_all
+  case case10 g t e1 ih3 ih2 ih1 =>
+    intro hm hc
+    simp only [LogicalSExpr.uniqueVariables, List.mem_append] at hm
+    simp only [LogicalSExpr.hasConst, Bool.or_eq_false_iff] at hc
+    have k3 := ih3 (fun x hx => hm x (Or.inl (Or.inl hx))) hc.1.1
+    have k2 := ih2 (fun x hx => hm x (Or.inl (Or.inr hx))) hc.1.2
+    have k1 := ih1 (fun x hx => hm x (Or.inr hx)) hc.2
+    cases h0 : fromSexprHelper m g <;> cases h1 : fromSexprHelper m t <;>
+      cases h2 : fromSexprHelper m e1 <;> simp_all
+  all_goals
+    rename_i l r ih2 ih1
+    intro hm hc
+    simp only [LogicalSExpr.uniqueVariables, List.mem_append] at hm
+    simp only [LogicalSExpr.hasConst, Bool.or_eq_false_iff] at hc
+    have k2 := ih2 (fun x hx => hm x (Or.inl hx)) hc.1
+    have k1 := ih1 (fun x hx => hm x (Or.inr hx)) hc.2
+    cases h1 : fromSexprHelper m l <;> cases h2 : fromSexprHelper m r <;> simp_all
+
+/-- **`from_sexpr` on the typed tree** -/
+theorem fromSexpr_evalNames (e : LogicalSExpr) (le : LogicalExpr) (a : Assign)
+    (h : fromSexpr e = some le) :
+    le.eval a = e.evalNames (fun x => a (indexIn e.uniqueVariables x)) :=
+  fromSexprHelper_sem e.variableMapping (indexIn e.uniqueVariables) a e
+    (fun x hx => variableMapping_spec e x hx) le h
+
+theorem fromSexpr_total (e : LogicalSExpr) (hc : e.hasConst = false) : (fromSexpr e).isSome :=
+  fromSexprHelper_total e.variableMapping e
+    (fun x hx => by rw [variableMapping_spec e x hx]; rfl) hc
+
+/-! ### the numbering is injective on the names of the text: every assignment of names is
+induced by an indexed assignment -/
+
+theorem filter_length_lt {p q : String → Bool} (x : String) :
+    ∀ (l : List String), (∀ z, p z = true → q z = true) → x ∈ l → q x = true → p x = false →
+      (l.filter p).length < (l.filter q).length
+  | [], _, hx, _, _ => by simp at hx
+  | y :: r, hpq, hx, hq, hp => by
+    have hle : (r.filter p).length ≤ (r.filter q).length := by
+      clear hx
+      induction r with
+      | nil => simp
+      | cons z r ih =>
+        simp only [List.filter_cons]
+        cases hpz : p z
+        · cases hqz : q z <;> simp <;> omega
+        · simp [hpq z hpz]; omega
+    rcases List.mem_cons.mp hx with rfl | hxr
+    · simp [hq, hp]; omega
+    · have ih := filter_length_lt x r hpq hxr hq hp
+      simp only [List.filter_cons]
+      cases hpy : p y
+      · cases hqy : q y <;> simp <;> omega
+      · simp [hpq y hpy]; omega
+
+theorem indexIn_lt_of_lt (names : List String) (x y : String) (hx : x ∈ names) (hxy : x < y) :
+    indexIn names x < indexIn names y := by
+  refine filter_length_lt x (distinct names) ?_ ((mem_distinct x names).mpr hx) ?_ ?_
+  · intro z hz; simp only [decide_eq_true_eq] at hz ⊢; exact String.lt_trans hz hxy
+  · simpa using hxy
+  · simp [String.lt_irrefl]
+
+theorem indexIn_inj (names : List String) (x y : String) (hx : x ∈ names) (hy : y ∈ names)
+    (h : indexIn names x = indexIn names y) : x = y := by
+  apply Classical.byContradiction
+  intro hne
+  by_cases hlt : x < y
+  · have := indexIn_lt_of_lt names x y hx hlt; omega
+  · have := indexIn_lt_of_lt names y x hy (str_lt_of_not x y hlt hne); omega
+
+/-- an indexed assignment inducing a given assignment of names -/
+def assignOfNames (names : List String) (ρ : NameAssign) : Assign := fun i =>
+  match names.find? (fun x => indexIn names x == i) with
+  | some x => ρ x
+  | none => false
+
+theorem assignOfNames_spec (names : List String) (ρ : NameAssign) (x : String) (hx : x ∈ names) :
+    assignOfNames names ρ (indexIn names x) = ρ x := by
+  simp only [assignOfNames]
+  cases hf : names.find? (fun y => indexIn names y == indexIn names x) with
+  | none =>
+    have := List.find?_eq_none.mp hf x hx
+    simp at this
+  | some y =>
+    have hy := List.mem_of_find?_eq_some hf
+    have he := List.find?_some hf
+    simp only [beq_iff_eq] at he
+    rw [indexIn_inj names y x hy hx he]
+
+theorem evalNames_congr (ρ ρ' : NameAssign) : ∀ (e : LogicalSExpr),
+    (∀ x ∈ e.uniqueVariables, ρ x = ρ' x) → e.evalNames ρ = e.evalNames ρ'
+  | .tru, _ => rfl
+  | .fls, _ => rfl
+  | .var s, h => by simpa [LogicalSExpr.evalNames] using h s (by simp [LogicalSExpr.uniqueVariables])
+  | .not e, h => by
+    simp only [LogicalSExpr.evalNames]; rw [evalNames_congr ρ ρ' e h]
+  | .or l r, h => by
+    simp only [LogicalSExpr.uniqueVariables, List.mem_append] at h
+    simp only [LogicalSExpr.evalNames]
+    rw [evalNames_congr ρ ρ' l (fun x hx => h x (Or.inl hx)), evalNames_congr ρ ρ' r (fun x hx => h x (Or.inr hx))]
+  | .and l r, h => by
+    simp only [LogicalSExpr.uniqueVariables, List.mem_append] at h
+    simp only [LogicalSExpr.evalNames]
+    rw [evalNames_congr ρ ρ' l (fun x hx => h x (Or.inl hx)), evalNames_congr ρ ρ' r (fun x hx => h x (Or.inr hx))]
+  | .iff l r, h => by
+    simp only [LogicalSExpr.uniqueVariables, List.mem_append] at h
+    simp only [LogicalSExpr.evalNames]
+    rw [evalNames_congr ρ ρ' l (fun x hx => h x (Or.inl hx)), evalNames_congr ρ ρ' r (fun x hx => h x (Or.inr hx))]
+  | .xor l r, h => by
+    simp only [LogicalSExpr.uniqueVariables, List.mem_append] at h
+    simp only [LogicalSExpr.evalNames]
+    rw [evalNames_congr ρ ρ' l (fun x hx => h x (Or.inl hx)), evalNames_congr ρ ρ' r (fun x hx => h x (Or.inr hx))]
+  | .ite g t e, h => by
+    simp only [LogicalSExpr.uniqueVariables, List.mem_append] at h
+    simp only [LogicalSExpr.evalNames]
+    rw [evalNames_congr ρ ρ' g (fun x hx => h x (Or.inl (Or.inl hx))),
+      evalNames_congr ρ ρ' t (fun x hx => h x (Or.inl (Or.inr hx))),
+      evalNames_congr ρ ρ' e (fun x hx => h x (Or.inr hx))]
+
+
+/-! ## SDD tables -/
+
+theorem any_congr' {α : Type} {l : List α} {f g : α → Bool} (h : ∀ x ∈ l, f x = g x) :
+    l.any f = l.any g := by
+  induction l with
+  | nil => rfl
+  | cons x r ih =>
+    simp only [List.any_cons, h x List.mem_cons_self,
+      ih (fun y hy => h y (List.mem_cons_of_mem _ hy))]
+
+def SPtrLt : SerSddPtr → Nat → Prop
+  | .ptr j _, n => j < n
+  | _, _ => True
+
+theorem SPtrLt.mono {p : SerSddPtr} {n m : Nat} (h : SPtrLt p n) (hnm : n ≤ m) : SPtrLt p m := by
+  cases p <;> simp_all [SPtrLt]; omega
+
+def SWf (nodes : Array SddOr) : Prop :=
+  ∀ i o, nodes[i]? = some o → ∀ e ∈ o, SPtrLt e.prime i ∧ SPtrLt e.sub i
+
+def SPrefix (nodes nodes' : Array SddOr) : Prop :=
+  nodes.size ≤ nodes'.size ∧ ∀ i, i < nodes.size → nodes'[i]? = nodes[i]?
+
+theorem SPrefix.refl (nodes : Array SddOr) : SPrefix nodes nodes := ⟨Nat.le_refl _, fun _ _ => rfl⟩
+
+theorem SPrefix.trans {a b c : Array SddOr} (h1 : SPrefix a b) (h2 : SPrefix b c) : SPrefix a c :=
+  ⟨Nat.le_trans h1.1 h2.1, fun i hi => by rw [h2.2 i (Nat.lt_of_lt_of_le hi h1.1), h1.2 i hi]⟩
+
+theorem SPrefix.push (nodes : Array SddOr) (n : SddOr) : SPrefix nodes (nodes.push n) :=
+  ⟨by simp, fun i hi => by
+    rw [Array.getElem?_push]; split
+    · omega
+    · rfl⟩
+
+theorem evalSddPtr_prefix {nodes nodes' : Array SddOr} (a : Assign) (hw : SWf nodes)
+    (hp : SPrefix nodes nodes') :
+    ∀ (fuel : Nat) (p : SerSddPtr), SPtrLt p nodes.size →
+      evalSddPtr nodes' a fuel p = evalSddPtr nodes a fuel p
+  | _, .tru, _ => by simp [evalSddPtr]
+  | _, .fls, _ => by simp [evalSddPtr]
+  | _, .lit _ _, _ => by simp [evalSddPtr]
+  | 0, .ptr _ _, _ => by simp [evalSddPtr]
+  | fuel + 1, .ptr i c, h => by
+    have hi : i < nodes.size := h
+    simp only [evalSddPtr, hp.2 i hi]
+    cases hn : nodes[i]? with
+    | none => rfl
+    | some o =>
+      simp only
+      congr 1
+      apply any_congr'
+      intro e he
+      obtain ⟨h1, h2⟩ := hw i o hn e he
+      rw [evalSddPtr_prefix a hw hp fuel e.prime (h1.mono (Nat.le_of_lt hi)),
+          evalSddPtr_prefix a hw hp fuel e.sub (h2.mono (Nat.le_of_lt hi))]
+
+def SDenotes (nodes : Array SddOr) (a : Assign) (p : SerSddPtr) (d : Sdd.Ptr) : Prop :=
+  SPtrLt p nodes.size ∧ ∀ fuel, SPtrLt p fuel → evalSddPtr nodes a fuel p = d.eval a
+
+theorem SDenotes.ext {nodes nodes' : Array SddOr} {a : Assign} {p : SerSddPtr} {d : Sdd.Ptr}
+    (h : SDenotes nodes a p d) (hw : SWf nodes) (hp : SPrefix nodes nodes') :
+    SDenotes nodes' a p d :=
+  ⟨h.1.mono hp.1, fun fuel hf => by rw [evalSddPtr_prefix a hw hp fuel p h.1]; exact h.2 fuel hf⟩
+
+theorem SDenotes.flip {nodes : Array SddOr} {a : Assign} {i : Nat} {k d : Sdd.Ptr} {c : Bool}
+    (h : SDenotes nodes a (.ptr i false) k) (he : d.eval a = xor c (k.eval a)) :
+    SDenotes nodes a (.ptr i c) d := by
+  refine ⟨h.1, fun fuel hf => ?_⟩
+  have h2 := h.2 fuel hf
+  cases fuel with
+  | zero => exact absurd hf (by simp [SPtrLt])
+  | succ f =>
+    simp only [evalSddPtr] at h2 ⊢
+    cases hn : nodes[i]? with
+    | none =>
+      have : i < nodes.size := h.1
+      simp at hn; omega
+    | some o =>
+      rw [hn] at h2; simp only [Bool.false_bne] at h2
+      simp only [h2, he]
+
+/-- the elements of a serialised node denote, one by one, the elements of the decision node -/
+inductive ElemsDenote (nodes : Array SddOr) (a : Assign) :
+    SddOr → List (Sdd.Ptr × Sdd.Ptr) → Prop where
+  | nil : ElemsDenote nodes a [] []
+  | cons {e : SddAnd} {p s : Sdd.Ptr} {o : SddOr} {es : List (Sdd.Ptr × Sdd.Ptr)} :
+      SDenotes nodes a e.prime p → SDenotes nodes a e.sub s → ElemsDenote nodes a o es →
+      ElemsDenote nodes a (e :: o) ((p, s) :: es)
+
+theorem ElemsDenote.ext {nodes nodes' : Array SddOr} {a : Assign} {o : SddOr}
+    {es : List (Sdd.Ptr × Sdd.Ptr)} (h : ElemsDenote nodes a o es) (hw : SWf nodes)
+    (hp : SPrefix nodes nodes') : ElemsDenote nodes' a o es := by
+  induction h with
+  | nil => exact .nil
+  | cons h1 h2 _ ih => exact .cons (h1.ext hw hp) (h2.ext hw hp) ih
+
+theorem ElemsDenote.lt {nodes : Array SddOr} {a : Assign} {o : SddOr}
+    {es : List (Sdd.Ptr × Sdd.Ptr)} (h : ElemsDenote nodes a o es) :
+    ∀ e ∈ o, SPtrLt e.prime nodes.size ∧ SPtrLt e.sub nodes.size := by
+  induction h with
+  | nil => intro e he; simp at he
+  | cons h1 h2 _ ih =>
+    intro e he
+    rcases List.mem_cons.mp he with rfl | he
+    · exact ⟨h1.1, h2.1⟩
+    · exact ih e he
+
+theorem ElemsDenote.eval {nodes nodes' : Array SddOr} {a : Assign} {o : SddOr}
+    {es : List (Sdd.Ptr × Sdd.Ptr)} (h : ElemsDenote nodes a o es) (hw : SWf nodes)
+    (hp : SPrefix nodes nodes') (f : Nat) (hf : nodes.size ≤ f) :
+    (o.any fun e => evalSddPtr nodes' a f e.prime && evalSddPtr nodes' a f e.sub) =
+      Sdd.evalElems a es := by
+  induction h with
+  | nil => simp [Sdd.evalElems]
+  | @cons e p s o' es' h1 h2 _ ih =>
+    simp only [List.any_cons, Sdd.evalElems, ih]
+    rw [evalSddPtr_prefix a hw hp f e.prime h1.1, evalSddPtr_prefix a hw hp f e.sub h2.1,
+        h1.2 f (h1.1.mono hf), h2.2 f (h2.1.mono hf)]
+
+structure SInv (a : Assign) (s : SddSt) : Prop where
+  wf : SWf s.nodes
+  tbl : ∀ k idx, (k, idx) ∈ s.table → SDenotes s.nodes a (.ptr idx false) k
+
+theorem ite_as_or (b h l : Bool) : (if b then h else l) = ((b && h) || ((!b && l) || false)) := by
+  cases b <;> simp
+
+mutual
+theorem serSddAux_correct (a : Assign) :
+    ∀ (d : Sdd.Ptr) (s : SddSt), SInv a s →
+      SInv a (serSddAux d s).2 ∧ SPrefix s.nodes (serSddAux d s).2.nodes ∧
+      SDenotes (serSddAux d s).2.nodes a (serSddAux d s).1 d
+  | .tru, s, hs => by
+    simp only [serSddAux]
+    exact ⟨hs, SPrefix.refl _, trivial, fun _ _ => by simp [evalSddPtr, Sdd.Ptr.eval]⟩
+  | .fls, s, hs => by
+    simp only [serSddAux]
+    exact ⟨hs, SPrefix.refl _, trivial, fun _ _ => by simp [evalSddPtr, Sdd.Ptr.eval]⟩
+  | .lit v p, s, hs => by
+    simp only [serSddAux]
+    exact ⟨hs, SPrefix.refl _, trivial, fun _ _ => by simp [evalSddPtr, Sdd.Ptr.eval]⟩
+  | .bdd c l i lo hi, s, hs => by
+    simp only [serSddAux]
+    cases hg : assocGet s.table (.bdd false l i lo hi) with
+    | some idx =>
+      simp only
+      exact ⟨hs, SPrefix.refl _,
+        (hs.tbl _ _ (assocGet_mem _ _ _ hg)).flip (by simp [Sdd.Ptr.eval])⟩
+    | none =>
+      simp only
+      obtain ⟨i1, p1, d1⟩ := serSddAux_correct a lo s hs
+      obtain ⟨i2, p2, d2⟩ := serSddAux_correct a hi (serSddAux lo s).2 i1
+      generalize (serSddAux lo s).1 = lp at *
+      generalize (serSddAux lo s).2 = s1 at *
+      generalize (serSddAux hi s1).1 = hp at *
+      generalize (serSddAux hi s1).2 = s2 at *
+      have d1' : SDenotes s2.nodes a lp lo := d1.ext i1.wf p2
+      let o : SddOr := [⟨.lit l true, hp⟩, ⟨.lit l false, lp⟩]
+      have hpush := SPrefix.push s2.nodes o
+      have hwf : SWf (s2.nodes.push o) := by
+        intro j n hn
+        rw [Array.getElem?_push] at hn
+        split at hn
+        · cases hn; subst_vars
+          intro e he
+          simp only [o, List.mem_cons, List.not_mem_nil, or_false] at he
+          rcases he with rfl | rfl
+          · exact ⟨trivial, d2.1⟩
+          · exact ⟨trivial, d1'.1⟩
+        · exact i2.wf j n hn
+      have hnew : SDenotes (s2.nodes.push o) a (.ptr s2.nodes.size false)
+          (.bdd false l i lo hi) := by
+        refine ⟨by simp [SPtrLt], fun fuel hf => ?_⟩
+        cases fuel with
+        | zero => exact absurd hf (by simp [SPtrLt])
+        | succ f =>
+          have hf' : s2.nodes.size ≤ f := Nat.le_of_lt_succ hf
+          simp only [evalSddPtr, Array.getElem?_push, if_true, Sdd.Ptr.eval, Bool.false_bne, o,
+            List.any_cons, List.any_nil]
+          rw [evalSddPtr_prefix a i2.wf hpush f hp d2.1, evalSddPtr_prefix a i2.wf hpush f lp d1'.1,
+              d2.2 f (d2.1.mono hf'), d1'.2 f (d1'.1.mono hf')]
+          exact (ite_as_or _ _ _).symm
+      refine ⟨⟨hwf, ?_⟩, p1.trans (p2.trans hpush), hnew.flip (by simp [Sdd.Ptr.eval])⟩
+      intro k idx hm
+      rcases List.mem_cons.mp hm with he | hm'
+      · cases he; exact hnew
+      · exact (i2.tbl k idx hm').ext i2.wf hpush
+  | .dec c i es, s, hs => by
+    simp only [serSddAux]
+    cases hg : assocGet s.table (.dec false i es) with
+    | some idx =>
+      simp only
+      exact ⟨hs, SPrefix.refl _,
+        (hs.tbl _ _ (assocGet_mem _ _ _ hg)).flip (by simp [Sdd.Ptr.eval])⟩
+    | none =>
+      simp only
+      obtain ⟨i1, p1, d1⟩ := serSddElems_correct a es s hs
+      generalize (serSddElems es s).1 = o at *
+      generalize (serSddElems es s).2 = s1 at *
+      have hpush := SPrefix.push s1.nodes o
+      have hwf : SWf (s1.nodes.push o) := by
+        intro j n hn
+        rw [Array.getElem?_push] at hn
+        split at hn
+        · cases hn; subst_vars; exact d1.lt
+        · exact i1.wf j n hn
+      have hnew : SDenotes (s1.nodes.push o) a (.ptr s1.nodes.size false) (.dec false i es) := by
+        refine ⟨by simp [SPtrLt], fun fuel hf => ?_⟩
+        cases fuel with
+        | zero => exact absurd hf (by simp [SPtrLt])
+        | succ f =>
+          have hf' : s1.nodes.size ≤ f := Nat.le_of_lt_succ hf
+          simp only [evalSddPtr, Array.getElem?_push, if_true, Sdd.Ptr.eval, Bool.false_bne]
+          exact d1.eval i1.wf hpush f hf'
+      refine ⟨⟨hwf, ?_⟩, p1.trans hpush, hnew.flip (by simp [Sdd.Ptr.eval])⟩
+      intro k idx hm
+      rcases List.mem_cons.mp hm with he | hm'
+      · cases he; exact hnew
+      · exact (i1.tbl k idx hm').ext i1.wf hpush
+theorem serSddElems_correct (a : Assign) :
+    ∀ (es : List (Sdd.Ptr × Sdd.Ptr)) (s : SddSt), SInv a s →
+      SInv a (serSddElems es s).2 ∧ SPrefix s.nodes (serSddElems es s).2.nodes ∧
+      ElemsDenote (serSddElems es s).2.nodes a (serSddElems es s).1 es
+  | [], s, hs => by
+    simp only [serSddElems]
+    exact ⟨hs, SPrefix.refl _, .nil⟩
+  | (p, sub) :: rest, s, hs => by
+    simp only [serSddElems]
+    obtain ⟨i1, p1, d1⟩ := serSddAux_correct a p s hs
+    obtain ⟨i2, p2, d2⟩ := serSddAux_correct a sub (serSddAux p s).2 i1
+    obtain ⟨i3, p3, d3⟩ := serSddElems_correct a rest (serSddAux sub (serSddAux p s).2).2 i2
+    generalize (serSddAux p s).1 = pp at *
+    generalize (serSddAux p s).2 = s1 at *
+    generalize (serSddAux sub s1).1 = sp at *
+    generalize (serSddAux sub s1).2 = s2 at *
+    generalize (serSddElems rest s2).1 = r at *
+    generalize (serSddElems rest s2).2 = s3 at *
+    exact ⟨i3, p1.trans (p2.trans p3),
+      .cons ((d1.ext i1.wf p2).ext i2.wf p3) (d2.ext i2.wf p3) d3⟩
+end
+
+theorem SInv.init (a : Assign) : SInv a ⟨#[], []⟩ :=
+  ⟨fun i n h => by simp at h, fun k idx h => by simp at h⟩
+
+/-- **the table `from_sdd` produces, read naively from its root, is the diagram's function** -/
+theorem serSdd_eval (d : Sdd.Ptr) (a : Assign) :
+    ∃ r, (serSdd d).roots = [r] ∧ evalSddTable (serSdd d) r a = d.eval a := by
+  obtain ⟨_, _, hd⟩ := serSddAux_correct a d ⟨#[], []⟩ (SInv.init a)
+  exact ⟨(serSddAux d ⟨#[], []⟩).1, rfl, hd.2 _ hd.1⟩
+
+theorem serSdd_wf (d : Sdd.Ptr) : SWf (serSdd d).nodes :=
+  (serSddAux_correct (fun _ => false) d ⟨#[], []⟩ (SInv.init _)).1.wf
+
+/-! ## vtrees -/
+
+theorem treeOfVtreeTable_serVtree : ∀ (t : Sdd.VTree), treeOfVtreeTable (serVtree t) = t
+  | .leaf v => rfl
+  | .node l r => by
+    simp [serVtree, treeOfVtreeTable, treeOfVtreeTable_serVtree l, treeOfVtreeTable_serVtree r]
+
+theorem serVtree_treeOfVtreeTable : ∀ (t : SerVTree), serVtree (treeOfVtreeTable t) = t
+  | .leaf v => rfl
+  | .node l r => by
+    simp [serVtree, treeOfVtreeTable, serVtree_treeOfVtreeTable l, serVtree_treeOfVtreeTable r]
 
 end Ser
